@@ -611,7 +611,7 @@ UseExpr(u) ==
     [] u = "qual1" -> Bin("Plus", Qual("x", "n"), Num("1")) [] u = "qual2" -> Bin("Plus", Qual("n", "x"), Num("1"))
     [] u = "fname" -> Call("n", <<Num("1")>>)
     [] u = "const" -> Bin("And", Col("true"), Bin("Eq", Col("a"), n))
-ScopePositions == {"where", "project", "extendNamed", "sumAgg", "sort", "take", "topN", "topBy", "joinOn2", "arg"}
+ScopePositions == {"where", "project", "extendNamed", "sumAgg", "sort", "take", "topN", "topBy", "joinOn2", "joinNested", "arg"}
 \* shorthand columns: the bound name written alone where a column may be named without `=`
 BarePositions == {"projectBare", "extendBare", "sumKeyBare", "sumAggBare"}
 
@@ -633,6 +633,9 @@ ScopeQuery(c) ==
     [] c[4] = "topN" -> Tab("T", <<Top(e, TermD(Col("b")))>>)
     [] c[4] = "topBy" -> Tab("T", <<Top(Num("3"), TermD(e))>>)
     [] c[4] = "joinOn2" -> Tab("T", <<Join(Id("inner"), Tab("B", <<>>), <<Col("k"), Canon(Bin("Eq", Qual("$left", "a"), e))>>)>>)
+    [] c[4] = "joinNested" ->       \* the condition of a join inside another join's right-hand pipeline
+         Tab("T", <<Join(Id("inner"), Tab("B", <<Join(Id("inner"), Tab("C", <<>>), <<Col("k"), Canon(Bin("Eq", Qual("$left", "a"), e))>>)>>),
+                         <<Col("k")>>)>>)
     [] c[4] = "arg" -> Tab("T", <<Where(Call("g", <<Num("1"), e>>))>>)
     [] c[4] = "projectBare" -> Tab("T", <<Project(<<PCol("n", None), PCol("q", None)>>)>>)
     [] c[4] = "extendBare" -> Tab("T", <<Extend(<<ECol(None, e), ECol(Id("q"), Col("b"))>>)>>)
@@ -642,7 +645,7 @@ ScopeQuery(c) ==
 ScopeExpr(c) ==
   LET e == Canon(UseExpr(c[3])) IN
   CASE c[4] = "sumAgg" -> Call("sum", <<e>>)
-    [] c[4] = "joinOn2" -> Canon(Bin("Eq", Qual("$left", "a"), e))
+    [] c[4] \in {"joinOn2", "joinNested"} -> Canon(Bin("Eq", Qual("$left", "a"), e))
     [] OTHER -> e
 ScopeItems(c) == SetupBefore(c[1], c[2]) \o <<ScopeQuery(c)>> \o SetupAfter(c[1])
 \* the same program without the bindings that must not matter (unused, after the query)
@@ -653,6 +656,44 @@ ScopeAlt(c) ==
 ScopeSc(c) == [params |-> SetupParams(c[1]),
                lets |-> [i \in DOMAIN SetupBefore(c[1], c[2]) |->
                            [n |-> SetupBefore(c[1], c[2])[i].name.name, x |-> SetupBefore(c[1], c[2])[i].x]]]
+
+---------------------------------------------------------------------------
+(* family groups: an operand followed by two or three bracketed / dotted    *)
+(* groups, each well formed or with junk inside, tokens only (C08: whatever *)
+(* the parser accepts must be accounted for; an error found in an earlier   *)
+(* group must not be forgotten because a later group is fine)               *)
+
+Nm(v) == KV("Number", v)
+GroupMenu == <<
+  <<KV("LBracket", ""), Nm("0"), KV("RBracket", "")>>,                       \* [0]
+  <<KV("LBracket", ""), Nm("0"), Nm("1"), KV("RBracket", "")>>,              \* [0 1]
+  <<KV("LBracket", ""), KV("RBracket", "")>>,                                \* []
+  <<KV("LBracket", ""), Nm("0"), KV("Plus", ""), KV("RBracket", "")>>,       \* [0 +]
+  <<KV("LParen", ""), Nm("1"), KV("RParen", "")>>,                           \* (1)
+  <<KV("LParen", ""), Nm("1"), Nm("2"), KV("RParen", "")>>,                  \* (1 2)
+  <<KV("LParen", ""), KV("RParen", "")>>,                                    \* ()
+  <<KV("LParen", ""), Nm("1"), KV("Comma", ""), KV("RParen", "")>>,          \* (1,)
+  <<KV("Dot", ""), KV("Identifier", "b")>>,                                  \* .b
+  <<KV("Dot", "")>>,                                                         \* .
+  <<KV("In", ""), KV("LParen", ""), Nm("1"), KV("RParen", "")>>,             \* in (1)
+  <<KV("In", ""), KV("LParen", ""), Nm("1"), Nm("2"), KV("RParen", "")>>     \* in (1 2)
+>>
+GroupHosts == {"where", "call", "project", "sort", "joinon"}
+GroupsChoices(c) ==
+  CASE Len(c) = 0 -> GroupHosts
+    [] Len(c) \in {1, 2} -> DOMAIN GroupMenu
+    [] Len(c) = 3 -> (DOMAIN GroupMenu) \cup {0}          \* 0: no third group
+    [] OTHER -> {}
+GroupsToks(c) ==
+  LET gs == GroupMenu[c[2]] \o GroupMenu[c[3]] \o (IF c[4] = 0 THEN <<>> ELSE GroupMenu[c[4]])
+      T == <<KV("Identifier", "T"), KV("Pipe", "")>>
+  IN CASE c[1] = "where" -> T \o <<KV("Identifier", "where"), A>> \o gs \o <<KV("GT", ""), Nm("0")>>
+       [] c[1] = "call" -> T \o <<KV("Identifier", "where"), KV("Identifier", "f"), KV("LParen", ""), A>> \o gs \o <<KV("RParen", "")>>
+       [] c[1] = "project" -> T \o <<KV("Identifier", "project"), KV("Identifier", "p"), KV("Assign", ""), A>> \o gs
+                              \o <<KV("Comma", ""), KV("Identifier", "q")>>
+       [] c[1] = "sort" -> T \o <<KV("Identifier", "sort"), KV("By", ""), A>> \o gs \o <<KV("Identifier", "asc")>>
+       [] c[1] = "joinon" -> T \o <<KV("Identifier", "join"), KV("LParen", ""), KV("Identifier", "B"), KV("RParen", ""),
+                                    KV("Identifier", "on"), KV("Identifier", "k"), KV("Comma", ""), A>> \o gs
 
 ---------------------------------------------------------------------------
 
@@ -692,6 +733,7 @@ ChoicesOf(fam, c) ==
     [] fam = "deep" -> DeepChoices(c)
     [] fam = "plant" -> PlantChoices(c)
     [] fam = "stress" -> StressChoices(c)
+    [] fam = "groups" -> GroupsChoices(c)
     [] fam = "scope" -> ScopeChoices(c)
 
 BuildOf(fam, c) ==
@@ -789,6 +831,7 @@ EmitCase ==
                                     sc |-> IF Family = "scope" THEN ScopeSc(ch) ELSE [params |-> <<>>, lets |-> <<>>],
                                     alt |-> IF Family = "scope" THEN Toks(ScopeAlt(ch)) ELSE <<>>]))
     ELSE PrintT("CASE " \o ToJson([fam |-> Family, ch |-> ch,
-                                    toks |-> IF Family = "corrupt" THEN CorruptToks(ch) ELSE StressToks(ch),
+                                    toks |-> IF Family = "corrupt" THEN CorruptToks(ch)
+                                            ELSE IF Family = "groups" THEN GroupsToks(ch) ELSE StressToks(ch),
                                     xp |-> "open", xc |-> "open"]))
 =============================================================================
